@@ -1136,3 +1136,53 @@ variant('b-prefetch-outside-credit', ['C06'], SG,
 variant('t-credit-local-var', ['C06'], H + 'request_stream_responder.py',
         "            self.subscriber.subscription.request(frame.request_n)",
         "            credit = frame.request_n\n            self.subscriber.subscription.request(credit)", kind='twin')
+
+# ----------------------------------------------------------------------------------------------- C20
+RXA = 'rsocket/reactivex/reactivex_handler_adapter.py'
+RX3 = 'rsocket/rx_support/rx_handler_adapter.py'
+variant('b-adapter-push-recursion', ['C20'], RXA,
+        "        await self.delegate.on_metadata_push(metadata)", "        await self.on_metadata_push(metadata)",
+        ('C20.a', 'ReactivexHandlerAdapter.on_metadata_push'))
+variant('b-adapter-close-to-error', ['C20'], RX3,
+        "        await self.delegate.on_close(rsocket, exception)",
+        "        await self.delegate.on_connection_error(rsocket, exception)", ('C20.a', 'RxHandlerAdapter.on_close'))
+variant('b-adapter-fnf-dropped', ['C20'], RXA,
+        "        await self.delegate.request_fire_and_forget(payload)", "        pass",
+        ('C20.a', 'request_fire_and_forget'))
+variant('b-adapter-setup-args-swapped', ['C20'], RX3,
+        "        await self.delegate.on_setup(data_encoding, metadata_encoding, payload)",
+        "        await self.delegate.on_setup(metadata_encoding, data_encoding, payload)", ('C20.a', 'RxHandlerAdapter.on_setup'))
+variant('b-client-fnf-as-push', ['C20'], 'rsocket/reactivex/reactivex_client.py',
+        "        return reactivex.from_future(cast(Future, self._rsocket.fire_and_forget(request)))",
+        "        return reactivex.from_future(cast(Future, self._rsocket.metadata_push(request)))",
+        ('C20.a', 'ReactiveXClient.fire_and_forget'))
+variant('b-subscriber-adapter-complete-as-error', ['C20'], 'rsocket/rx_support/subscriber_adapter.py',
+        "    def on_completed(self):\n        self._subscriber.on_complete()",
+        "    def on_completed(self):\n        self._subscriber.on_error(None)", ('C20.a', 'rx_support SubscriberAdapter.on_completed'))
+variant('b-client-limit-not-initial', ['C20', 'C06'], 'rsocket/rx_support/rx_rsocket.py',
+        "        response_publisher = self._rsocket.request_stream(request).initial_request_n(request_limit)",
+        "        response_publisher = self._rsocket.request_stream(request)", ('C06.a', 'RxRSocket.request_stream'))
+variant('b-dispose-leaves-subscription-task', ['C20'], 'rsocket/reactivex/from_rsocket_publisher.py',
+        "            get_next_task.cancel()\n            task.cancel()", "            get_next_task.cancel()",
+        ('C20.d', 'reactivex from_rsocket_publisher / dispose'))
+variant('b-dispose-never-cancels-stream', ['C20'], 'rsocket/rx_support/from_rsocket_publisher.py',
+        """    except CancelledError:
+        if not subscriber.done.is_set():
+            subscriber.subscription.cancel()""", """    except CancelledError:
+        pass""", ('C20.d', 'rx_support _aio_sub'))
+variant('b-complete-does-not-mark-done', ['C20'], 'rsocket/reactivex/from_rsocket_publisher.py',
+        """    def on_complete(self):
+        self.observer.on_completed()
+        self._finish()
+
+
+async def _aio_sub""", """    def on_complete(self):
+        self.observer.on_completed()
+
+
+async def _aio_sub""", ('C20.d', 'reactivex RxSubscriber.on_complete'))
+variant('b-channel-observer-without-limit', ['C20'], RXA,
+        """            subscriber = RxSubscriberFromObserver(reactivex_channel.observer,
+                                                  reactivex_channel.limit_rate)""",
+        """            subscriber = RxSubscriberFromObserver(reactivex_channel.observer, MAX_REQUEST_N)""",
+        ('C20.e', 'ReactivexHandlerAdapter.request_channel'))
